@@ -9,8 +9,10 @@ def W : Nat := 18446744073709551616      -- 2^64
 /-- `bits.Add64(a, b, carry)` = (sum, carryOut). -/
 @[inline] def add64 (a b c : Nat) : Nat × Nat := ((a + b + c) % W, (a + b + c) / W)
 
-/-- `bits.Sub64(a, b, borrow)` = (diff, borrowOut). -/
-@[inline] def sub64 (a b c : Nat) : Nat × Nat := ((a + W + W - b - c) % W, if a < b + c then 1 else 0)
+/-- `bits.Sub64(a, b, borrow)` = (diff, borrowOut).  For words `a b < 2^64` and `c ≤ 1` the borrow-out
+    `1 - (a + W - b - c) / W` is 1 exactly when `a < b + c` (lemma `I3.Word.sub64_borrow` in
+    I3.Lemmas.Limbs); it is written arithmetically so that `omega` sees through it. -/
+@[inline] def sub64 (a b c : Nat) : Nat × Nat := ((a + W + W - b - c) % W, 1 - (a + W - b - c) / W)
 
 /-- `bits.Mul64(a, b)` = (hi, lo). -/
 @[inline] def mul64 (a b : Nat) : Nat × Nat := ((a * b) / W, (a * b) % W)
